@@ -2,7 +2,7 @@
     The model processes one request completely before the next; FIFO delivery of requests and
     the single-threaded loop are runtime facts outside the model (PARTIAL for concurrent clients:
     the correspondence runs drive one client, and two clients at once whose replies must admit an order). *)
-From ID Require Import Model.Actor Proofs.ActorFacts Proofs.HandleFacts Proofs.FsPutFacts Proofs.ReachFacts Proofs.AckFacts.
+From ID Require Import Model.Actor Proofs.ActorFacts Proofs.HandleFacts Proofs.DropFacts Proofs.FsPutFacts Proofs.ReachFacts Proofs.AckFacts.
 From ID Require Import Model.Entry Model.Tables Model.StoreOps.
 
 Theorem C14_closed_ops_fail_noop : forall ks EH MF CAP mss split s o ns,
@@ -75,6 +75,16 @@ Proof. exact step_covered. Qed.
 Example C14_empty_store_well_formed : SInv empty_tables.
 Proof. exact SInv_empty. Qed.
 
+(** the store's open marker mirrors the actor's handles after every request, so a drop is refused with
+    "not closed" exactly when another handle remains: a document that nobody else holds can always be
+    dropped *)
+Theorem C14_open_marker_mirrors_handles : forall ks EH MF CAP mss split s o,
+  OpenInv s -> OpenInv (fst (fst (astep ks EH MF CAP mss split s o))).
+Proof. exact step_open_inv. Qed.
+Theorem C14_drop_refused_iff_another_handle : forall ks EH MF CAP mss split s ns, OpenInv s -> HPos s ->
+  snd (fst (astep ks EH MF CAP mss split s (ADrop ns))) = AErr ANotClosed <-> 1 < handles s ns.
+Proof. exact drop_refused_iff. Qed.
+
 Print Assumptions C14_closed_ops_fail_noop.
 Print Assumptions C14_sync_gate.
 Print Assumptions C14_open_adds_handle_sync_sticky.
@@ -86,3 +96,5 @@ Print Assumptions C14_history_counter.
 Print Assumptions C14_acked_writes_in_final_store.
 Print Assumptions C14_store_invariant_kept.
 Print Assumptions C14_empty_store_well_formed.
+Print Assumptions C14_open_marker_mirrors_handles.
+Print Assumptions C14_drop_refused_iff_another_handle.
